@@ -29,6 +29,7 @@ pub fn line_reference_q(
     term: Term,
     unicode_word: bool,
 ) -> Value {
+    let case_engine_quirk = orc.engine_disagrees(input);
     let lines = split_lines(input, term);
     let mut out = vec![];
     for (i, l) in lines.iter().enumerate() {
@@ -50,8 +51,14 @@ pub fn line_reference_q(
                 }
             }
         }
+        // the regex library's optimised engine and its NFA simulation
+        // disagree on this line (alone or inside the buffer)
+        // (case level: a wrong match of the buffer search can surface on any
+        // line of the input)
+        let engine_quirk = case_engine_quirk;
         out.push(json!({
-            "quirk": quirk,
+            "quirk": quirk || engine_quirk,
+            "engine_quirk": engine_quirk,
             "n": i + 1,
             "start": l.start,
             "end": l.end,
@@ -220,6 +227,9 @@ pub fn clicases(kind: &str, seed: u64, n: usize) -> Value {
                     Ok(o) => o,
                     Err(_) => continue,
                 };
+                if orc.engine_disagrees(&case.input) {
+                    continue;
+                }
                 let lines = split_lines(&case.input, case.cfg.term);
                 let mask: Vec<bool> = lines
                     .iter()
@@ -302,6 +312,9 @@ pub fn clicases(kind: &str, seed: u64, n: usize) -> Value {
                     Ok(o) => o,
                     Err(_) => continue,
                 };
+                if orc.engine_disagrees(&case.input) {
+                    continue;
+                }
                 let uw = crate::oracle::matcher_builder(&case.flags)
                     .verif_describe(&case.patterns)
                     .map(|(h, _)| h.properties().look_set().contains_word_unicode())
@@ -337,6 +350,9 @@ pub fn clicases(kind: &str, seed: u64, n: usize) -> Value {
                     Ok(o) => o,
                     Err(_) => continue,
                 };
+                if orc.engine_disagrees(&case.input) {
+                    continue;
+                }
                 let lines = split_lines(&case.input, case.flags.term);
                 let (covered, nm, ambiguous) = crate::c13::covered_lines(&orc, &case.input, &lines);
                 if ambiguous {
